@@ -28,7 +28,13 @@ def gen(rng, tier):
         net = G.gen_net(rng, n_inputs=(1, 4) if big else (1, 3), n_gates=(10, 22) if big else (3, 14), types=G.swarm_types(rng), max_arity=3,
                         constants=0.2, bbs=rng.choice((0, 0, 1)))
     elif op == "insert_registers":
-        net = G.gen_net(rng, n_inputs=(1, 4), n_gates=(2, 12), types=G.swarm_types(rng), max_arity=3, constants=0.2)
+        net = G.gen_net(rng, n_inputs=(1, 4), n_gates=(2, 12), types=G.swarm_types(rng), max_arity=3, constants=0.2,
+                        bbs=rng.choice((0, 0, 0, 1, 2)))
+        if rng.random() < 0.1:
+            # a net that is already called like the clock input insert_registers adds (`clk`): an input or a gate
+            plain = [n for n in net["nodes"] if "." not in n and net["nodes"][n][0] not in ("0", "1")]
+            if plain:
+                net = G.rename(net, {rng.choice(plain): "clk"})
     else:
         net = G.gen_net(rng, n_inputs=(1, 4), n_gates=(1, 10), types=G.swarm_types(rng), max_arity=4, constants=0.2,
                         input_outputs=rng.choice((0.0, 0.3)))
@@ -84,14 +90,17 @@ def run(case, ctx):
         r = ctx.call("C05.raises", sig, cg.tx.limit_fanout, c, k)
     elif op == "insert_registers":
         if net["bbs"]:
-            raise Skip("insert_registers workload is blackbox-free")
+            ctx.probe("insert_registers:pre-existing_blackboxes")
         depth = ref.depth_map(net)
         md = max(depth.values())
         inc = round(md / (case["stages"] + 1))
         if inc < 1:
             raise Skip("no stage boundary")
-        if "clk" in nodes or any(n.startswith("ff_") for n in nodes):
+        if any(n.startswith("ff_") for n in nodes) or any(i.startswith("ff_") for i in net["bbs"]):
             raise Skip("name clash with defaults")
+        if "clk" in nodes:
+            ctx.probe("insert_registers:clk_exists")
+            sig["clk_exists"] = nodes["clk"][0]
         for i in range(inc, md, inc):
             if sum(1 for n in depth if depth[n] == i) >= 2:
                 ctx.probe("stage_boundary>=2")
@@ -130,11 +139,17 @@ def run(case, ctx):
         check_nodes = list(nodes)
         cmp_net = rs
     elif op == "insert_registers":
-        want_in = sorted(set(ref.inputs(net)) | {"clk"})
+        want_in = sorted(set(ref.inputs(net)) | ({"clk"} if "clk" not in nodes else set()))
         if ref.inputs(rs) != want_in:
             ctx.violate("C05.inputs", f"insert_registers: inputs {ref.inputs(rs)} != {want_in}", sig)
         cmp_net = {"name": rs["name"], "nodes": {n: [t, list(fi), o] for n, (t, fi, o) in rs["nodes"].items()}, "bbs": {}}
+        for inst, v in net["bbs"].items():
+            if inst not in rs["bbs"] or list(rs["bbs"][inst]) != list(v):
+                ctx.violate("C05.reg_pins", f"pre-existing instance {inst} changed: {rs['bbs'].get(inst)}", sig)
+        cmp_net["bbs"] = {i: v for i, v in net["bbs"].items()}
         for inst, (tname, ins, outs) in rs["bbs"].items():
+            if inst in net["bbs"]:
+                continue
             if tname != "ff":
                 ctx.violate("C05.reg_type", f"instance {inst} has type {tname}", sig)
             d = cmp_net["nodes"].get(f"{inst}.d")
@@ -147,12 +162,13 @@ def run(case, ctx):
                 cmp_net["nodes"][l][1] = [drv if x == q else x for x in cmp_net["nodes"][l][1]]
             for p in ins + outs:
                 cmp_net["nodes"].pop(f"{inst}.{p}", None)
-        ctx.stats["flops_inserted"] += len(rs["bbs"])
+        ctx.stats["flops_inserted"] += len(rs["bbs"]) - len(net["bbs"])
         check_nodes = list(nodes)
     else:
         check_nodes = ref.outputs(net)
         cmp_net = rs
-    if any(v[0] in ("bb_output",) for v in cmp_net["nodes"].values()) and op == "insert_registers":
+    if any(v[0] in ("bb_output",) and n.split(".")[0] not in net["bbs"] for n, v in cmp_net["nodes"].items()) \
+            and op == "insert_registers":
         ctx.violate("C05.reg_pins", "a flop pin survived making the flops transparent", sig)
     free_r = ref.free_nodes(cmp_net)
     extra = sorted(set(free_r) - set(free))
